@@ -213,6 +213,16 @@ func ExecuteScenario(env *Env, sc *Scenario) (out *Outcome, err error) {
 		return nil, infra("world: %v", err)
 	}
 	defer os.RemoveAll(root)
+	if sc.LinkedRoot {
+		if err := os.MkdirAll(filepath.Join(root, "volume"), 0o755); err != nil {
+			return nil, infra("world: %v", err)
+		}
+		if err := os.Symlink("volume", filepath.Join(root, "ws")); err != nil {
+			return nil, infra("world: %v", err)
+		}
+		root = filepath.Join(root, "ws")
+		env.Stats.Add("probe/module-below-a-symlinked-directory", 1)
+	}
 	mroot := filepath.Join(root, "m")
 	if err := os.MkdirAll(mroot, 0o755); err != nil {
 		return nil, infra("world: %v", err)
